@@ -3,5 +3,5 @@ CONSTANTS
     Variant = "current"
     NFiles = 3
     MaxIncs = 2
-INVARIANTS NoLoop OnceRespected Terminates AcyclicFine SoundVsExpand FoldAgrees
+INVARIANTS NoLoop OnceRespected Terminates AcyclicFine MatchesExpand FoldAgrees
 CHECK_DEADLOCK FALSE
